@@ -6,7 +6,7 @@ framed packet, per-packet parameter association, one source / one destination pe
 the Lean model.
 """
 from netlist import Netlist
-from migen import Module
+from migen import Module, Signal
 from litex.soc.interconnect import stream
 from litex.soc.interconnect import packet
 
@@ -737,9 +737,13 @@ def _pkdpk_build(name, B, H, fields, swap, data_values=None, hdr_values=None, ga
 # PacketFIFO
 
 class FifoStim:
-    def __init__(self, dwid, pwid, max_len, data_values=None, param_values=None):
+    """Packets of 1..cap beats (cap = what the payload queue can hold); a packet of cap+1 beats blocks a
+    store-and-forward FIFO for good (packetfifo_capacity), so over-long packets are offered only from cycle
+    `overlong_from` on: the run exercises the live FIFO first and the capacity limit at its end."""
+    def __init__(self, dwid, pwid, max_len, data_values=None, param_values=None, overlong_from=0):
         self.dwid, self.pwid, self.max_len = dwid, pwid, max_len
         self.data_values, self.param_values = data_values, param_values
+        self.overlong_from = overlong_from
         self.reset()
 
     def reset(self):
@@ -750,7 +754,7 @@ class FifoStim:
         if prev and prev[0][0] and prev[1][0]:      # previous beat accepted
             self.left -= 1
         if self.left <= 0:
-            self.left = rng.randint(1, self.max_len)
+            self.left = rng.randint(1, self.max_len if t >= self.overlong_from else max(1, self.max_len - 1))
         v = 1 if rng.random() < pv else 0
         d = rng.choice(self.data_values) if self.data_values else rng.randint(0, (1 << self.dwid) - 1)
         p = rng.choice(self.param_values) if self.param_values else rng.randint(0, (1 << self.pwid) - 1)
@@ -812,14 +816,28 @@ class PacketFifoMonitor:
         return msg
 
 
-def packetfifo_inst(name, pd, qd=None, buffered=False, *a, **kw):
+def fifo_lean_open(pd, qd, buffered, legacy):
+    """`legacy`: the depth >= 2 machines `packetFifo` / `packetFifoBuffered` (the ones packetfifo_atomic /
+    packetfifo_buffered_atomic are stated about); otherwise `packetFifoAll`, which covers every depth and is proved
+    equal to the legacy machines for depths >= 2."""
     qdepth = (qd if qd is not None else pd) + 1
-    return _try(lambda: _packetfifo_build(name, pd, qd, buffered, *a, **kw), name,
-                "packetfifo%s %d %d" % ("_buffered" if buffered else "", pd, qdepth), (0, 0, 0, 0, 0))
+    if legacy:
+        return "packetfifo%s %d %d" % ("_buffered" if buffered else "", pd, qdepth)
+    return "packetfifo_all %d %d %d" % (pd, qdepth, int(buffered))
+
+
+def fifo_defect_region(pd, qd, buffered):
+    """Open candidate finding: buffered payload FIFO (depth >= 2) with a PipeValid param queue (param_depth = 0)."""
+    return bool(buffered and pd >= 2 and qd == 0)
+
+
+def packetfifo_inst(name, pd, qd=None, buffered=False, *a, legacy=False, **kw):
+    return _try(lambda: _packetfifo_build(name, pd, qd, buffered, *a, legacy=legacy, **kw), name,
+                fifo_lean_open(pd, qd, buffered, legacy), (0, 0, 0, 0, 0))
 
 
 def _packetfifo_build(name, pd, qd=None, buffered=False, dwid=1, pwid=1, data_values=(0, 1), param_values=(0, 1),
-                      alphabet=True, tokens=None, max_len=None):
+                      alphabet=True, tokens=None, max_len=None, legacy=False, overlong_from=0):
     layout = stream.EndpointDescription([("data", dwid)], [("p", pwid)])
     m = packet.PacketFIFO(layout, payload_depth=pd, param_depth=qd, buffered=buffered)
     ins = [m.sink.valid, m.sink.data, m.sink.p, m.sink.last, m.source.ready]
@@ -832,12 +850,15 @@ def _packetfifo_build(name, pd, qd=None, buffered=False, dwid=1, pwid=1, data_va
             for (d, p, l) in toks:
                 letters.append((1, d, p, l, r))
     qdepth = (qd if qd is not None else pd) + 1
-    inst = PortInst(name, m, "packetfifo%s %d %d" % ("_buffered" if buffered else "", pd, qdepth), ins, outs,
+    inst = PortInst(name, m, fifo_lean_open(pd, qd, buffered, legacy), ins, outs,
                     [None, None, 1, 1, 1, 1], letters)
     inst.is_event = lambda letter, o: bool((letter[0] and o[0]) or (o[1] and letter[4]))
-    inst.stim = FifoStim(dwid, pwid, max_len or pd + 1, data_values if alphabet else None,
-                         param_values if alphabet else None)
-    inst.mon_factory = lambda: PacketFifoMonitor(pd + (1 if buffered else 0), pd, qdepth)
+    cap = pd + (1 if buffered and pd >= 2 else 0)
+    inst.stim = FifoStim(dwid, pwid, max_len or cap + 1, data_values if alphabet else None,
+                         param_values if alphabet else None, overlong_from)
+    # stream.SyncFIFO ignores `buffered` below depth 2 (depth 1 = PipeValid register, depth 0 = wire)
+    inst.mon_factory = lambda: PacketFifoMonitor(pd + (1 if buffered and pd >= 2 else 0), pd, qdepth)
+    inst.defect_region = fifo_defect_region(pd, qd, buffered)
     return inst
 
 
@@ -958,8 +979,10 @@ def arbiter_inst(name, n, dwid=1, payload_values=(0, 1, 2, 3), alphabet=True):
         for ep in masters:
             ins += [ep.valid, Packed([ep.data, ep.first], [dwid, 1]), ep.last]
         ins.append(slave.ready)
+        # Arbiter([], slave) is `pass`: it has no `grant` at all; the model's constant 0 is compared with a dummy
+        grant = m.arb.grant if n > 0 else Signal()
         outs = [ep.ready for ep in masters] + [slave.valid, Packed([slave.data, slave.first], [dwid, 1]), slave.last,
-                                               m.arb.grant]
+                                               grant]
         letters = []
         if alphabet:
             per = [(v, d, l) for v in (0, 1) for d in payload_values for l in (0, 1)]
@@ -1007,7 +1030,7 @@ class DispatcherStim:
             self.cur = (rng.choice((0, (1 << self.pwid) - 1, rng.getrandbits(self.pwid))), 1 if self.left == 1 else 0)
         if rng.random() < 0.3:               # the selector flips at any time, also in the middle of a packet
             if self.one_hot and rng.random() < 0.8:
-                self.sel = 1 << rng.randrange(self.m)
+                self.sel = 1 << rng.randrange(max(1, self.m))
             elif rng.random() < 0.7:
                 self.sel = rng.randrange(max(1, self.m))
             else:
@@ -1043,7 +1066,7 @@ class DispatcherMonitor:
             # progress: the beat is visible somewhere or drained, and a ready destination takes it now
             if active and letter[4 + active[0]] and not mready:
                 return "slave %d is ready but master.ready is low" % active[0]
-            if not active and not mready:
+            if not active and not mready and m > 0:      # without any slave there is nothing to demand
                 return "beat presented to no slave and not drained (master.ready low)"
         if not (v and mready):
             return None
